@@ -691,7 +691,9 @@ def classify_done_rhs(assign):
                 and getattr(test.comparators[0], "value", 0) is None:
             # where does src come from?
             h = enclosing(assign, ast.ExceptHandler)
-            if h is not None and h.name and src == h.name + ".value":
+            while h is not None and not (h.name and src == h.name + ".value"):
+                h = enclosing(h, ast.ExceptHandler)
+            if h is not None:
                 types = dotted(h.type) if h.type is not None else None
                 return "from:%s.value" % types
             return "from:" + src
@@ -886,3 +888,433 @@ def rotation_hazard_facts(run, cls):
     if hazards and reorder:
         note = "%s: reordering present in exit() (%s); its correctness is not decided" % (cls.name, unparse(reorder[0]))
     return facts, note
+
+
+# ------------------------------------------------------------ C05 run loop
+def _is_empty_test(test):
+    """Return True/False polarity if `test` being true means 'self.deeds is empty' (True) or non-empty (False); else None."""
+    t, neg = test, False
+    while isinstance(t, ast.UnaryOp) and isinstance(t.op, ast.Not):
+        t, neg = t.operand, not neg
+    if dotted(t) == "self.deeds":
+        return neg                       # `not self.deeds` true => empty
+    if isinstance(t, ast.Call) and dotted(t.func) == "len" and t.args and dotted(t.args[0]) == "self.deeds":
+        return neg
+    if isinstance(t, ast.Compare) and len(t.ops) == 1 and isinstance(t.left, ast.Call) and dotted(t.left.func) == "len" \
+            and t.left.args and dotted(t.left.args[0]) == "self.deeds" and getattr(t.comparators[0], "value", None) == 0:
+        if isinstance(t.ops[0], ast.Eq):
+            return not neg
+        if isinstance(t.ops[0], (ast.Gt, ast.NotEq)):
+            return neg
+    return None
+
+
+class RunLoopDomain(Domain):
+    """state = (done, entered, empty_known, tymer_after_enter, seq, bad)"""
+
+    def __init__(self, tymer_names, timer_names):
+        self.tymers = tymer_names
+        self.timers = timer_names
+
+    def initial(self):
+        return (None, False, False, None, (), frozenset())
+
+    def on_event(self, node, state):
+        done, entered, empty, tym, seq, bad = state
+        if isinstance(node, ast.Call):
+            m = is_self_call(node)
+            if m == "enter":
+                if done is not False:
+                    bad = bad | {"enter-before-done-false"}
+                entered = True
+            elif m == "recur":
+                empty = False
+                seq = ("recur",)
+            elif m == "exit":
+                pass
+            cc = dotted(node.func) or ""
+            if cc.split(".")[-1] == "Tymer":
+                tym = entered
+                if seq:
+                    bad = bad | {"tymer-built-inside-loop"}
+            mc = method_call(node)
+            if mc and mc[0] in self.timers and mc[1] in ("restart", "start") and seq:
+                seq = seq + ("pace:" + mc[1],)
+            if cc.endswith("sleep") and seq:
+                if not (seq and seq[-1] == "sleep"):
+                    seq = seq + ("sleep",)
+        yield (done, entered, empty, tym, seq, bad), NORMAL
+
+    def on_store(self, target, value, state, stmt):
+        done, entered, empty, tym, seq, bad = state
+        if dotted(target) == "self.done":
+            if isinstance(value, ast.Constant):
+                if value.value is True and not empty:
+                    bad = bad | {"done-true-without-empty-deeds"}
+                if value.value is True:
+                    seq = seq + ("done=True",)
+                done = value.value
+            else:
+                done = "?"
+                bad = bad | {"done-nonconstant"}
+        return (done, entered, empty, tym, seq, bad)
+
+    def assume(self, test, truth, state):
+        done, entered, empty, tym, seq, bad = state
+        if isinstance(test, ast.Constant):
+            return state if bool(test.value) == truth else None
+        pol = _is_empty_test(test)
+        if pol is not None:
+            is_empty = (truth == pol)
+            seq2 = seq + ("empty?%s" % ("T" if is_empty else "F"),) if seq else seq
+            return (done, entered, is_empty, tym, seq2, bad)
+        names = {dotted(n) for n in ast.walk(test) if isinstance(n, ast.Attribute)}
+        if any(n and n.split(".")[0] in self.tymers and n.endswith(".expired") for n in names):
+            shape = "limit-and-expired" if (isinstance(test, ast.BoolOp) and isinstance(test.op, ast.And)
+                                             and any(dotted(v) == "self.limit" for v in test.values)) else "other:" + unparse(test)
+            if seq:
+                seq = seq + ("limit?%s[%s]" % ("T" if truth else "F", shape),)
+            return (done, entered, empty, tym, seq, bad)
+        t, neg = test, False
+        while isinstance(t, ast.UnaryOp) and isinstance(t.op, ast.Not):
+            t, neg = t.operand, not neg
+        d = dotted(t)
+        if d == "self.real" and seq:
+            return (done, entered, empty, tym, seq + ("real?%s" % ("T" if truth != neg else "F"),), bad)
+        if d and d.endswith(".expired") and d.rsplit(".", 1)[0] in self.timers and seq:
+            expired = truth != neg
+            lab = "expired?%s" % ("T" if expired else "F")
+            if seq[-1] != lab and not (seq[-1] == "sleep" and not expired):
+                seq = seq + (lab,)
+            return (done, entered, empty, tym, seq, bad)
+        return state
+
+
+def runloop_facts(run, f):
+    """Facts about Doist.do / Doist.ado: done/empty discipline, iteration order, limit test, tymer construction."""
+    tymers, timers = set(), {"self.timer"}
+    tymer_calls = []
+    for n in walk_local(f.node):
+        if isinstance(n, ast.Assign) and isinstance(n.value, ast.Call) and isinstance(n.targets[0], ast.Name):
+            cn = (dotted(n.value.func) or "").split(".")[-1]
+            if cn == "Tymer":
+                tymers.add(n.targets[0].id)
+                tymer_calls.append(n.value)
+            elif cn.endswith("Timer"):
+                timers.add(n.targets[0].id)
+    dom = RunLoopDomain(tymers, timers)
+    res = Interp(dom, run.lat).run(f.node)
+    run.paths += len(res)
+    facts = {}
+    bads = set()
+    seqs = set()
+    tym = set()
+    dones = set()
+    for (st, oc), tr in res.items():
+        done, entered, empty, tymx, seq, bad = st
+        bads |= bad
+        if entered and seq:
+            seqs.add(seq)
+        if entered:
+            tym.add(tymx)
+        if oc == RETURN:
+            dones.add((done, empty))
+    facts["run.discipline-violations"] = (tuple(sorted(bads)), run.site(f))
+    # normalise pacing details out of the order fact (they belong to C07)
+    order = set()
+    pace = set()
+    for seq in seqs:
+        order.add(tuple(x for x in seq if not (x.startswith("expired?") or x == "sleep" or x.startswith("pace:") or x.startswith("real?"))))
+        pace.add(tuple(x for x in seq if (x.startswith("expired?") or x == "sleep" or x.startswith("pace:") or x == "recur" or x.startswith("real?"))))
+    facts["run.iteration-order"] = (tuple(sorted(order)), run.site(f))
+    facts["run.pacing"] = (tuple(sorted(pace)), run.site(f))
+    facts["run.tymer-built-after-enter"] = (tuple(sorted(tym, key=str)), run.site(f))
+    facts["run.return-states"] = (tuple(sorted(dones, key=str)), run.site(f))
+    kw = set()
+    for c in tymer_calls:
+        kw.add(tuple(sorted((k.arg, unparse(k.value)) for k in c.keywords if k.arg)))
+    facts["run.tymer-args"] = (tuple(sorted(kw)), run.site(f, tymer_calls[0]) if tymer_calls else run.site(f))
+    return facts
+
+
+EXPECT_RUN = {
+    "run.discipline-violations": (),
+    "run.iteration-order": (("recur", "empty?F", "limit?T[limit-and-expired]"),
+                            ("recur", "empty?T", "done=True")),
+    "run.tymer-built-after-enter": (True,),
+    "run.return-states": ((False, False), (True, True)),
+    "run.tymer-args": ((("duration", "self.limit"), ("tymth", "self.tymen()")),),
+}
+
+
+# ------------------------------------------------------------ C06 facts
+def _filter_comp(value, param, member_op):
+    """value is `[d for d in <param> if d (not) in self.doers]` -> True"""
+    if not isinstance(value, ast.ListComp) or len(value.generators) != 1:
+        return False
+    g = value.generators[0]
+    if dotted(g.iter) != param or not isinstance(g.target, ast.Name) or dotted(value.elt) != g.target.id:
+        return False
+    for c in g.ifs:
+        if isinstance(c, ast.Compare) and len(c.ops) == 1 and isinstance(c.ops[0], member_op) \
+                and dotted(c.left) == g.target.id and dotted(c.comparators[0]) == "self.doers":
+            return True
+    return False
+
+
+class FilteredDomain(Domain):
+    """state: frozenset of local names that currently hold a list filtered against self.doers."""
+
+    def __init__(self, param, op):
+        self.param, self.op = param, op
+        self.uses = []      # (callee text, arg text, filtered?, node)
+
+    def initial(self):
+        return frozenset()
+
+    def on_store(self, target, value, state, stmt):
+        if isinstance(target, ast.Name):
+            if isinstance(value, ast.AST) and _filter_comp(value, self.param, self.op):
+                return state | {target.id}
+            if isinstance(value, ast.Name) and value.id in state:
+                return state | {target.id}
+            return state - {target.id}
+        return state
+
+    def on_event(self, node, state):
+        if isinstance(node, ast.Call):
+            for a in list(node.args) + [k.value for k in node.keywords]:
+                if isinstance(a, ast.Name) and (a.id == self.param or a.id in state):
+                    self.uses.append((unparse(node.func), a.id, a.id in state, node))
+        yield state, NORMAL
+
+    def for_next(self, node, state):
+        if isinstance(node.iter, ast.Name) and (node.iter.id == self.param or node.iter.id in state):
+            self.uses.append(("for", node.iter.id, node.iter.id in state, node))
+        return state, state
+
+
+def extend_facts(run, cls):
+    f = run.ix.method(cls, "extend")
+    param = f.params()[0][1]
+    dom = FilteredDomain(param, ast.NotIn)
+    res = Interp(dom, run.lat).run(f.node)
+    run.paths += len(res)
+    facts = {}
+    uses = {(fn, filt) for fn, arg, filt, node in dom.uses}
+    facts["extend.raw-uses-of-argument"] = (tuple(sorted(fn for fn, filt in uses if not filt)), run.site(f))
+    facts["extend.enters-filtered"] = (("self.enter", True) in uses, run.site(f))
+    facts["extend.appends-filtered-to-doers"] = (("self.doers.extend", True) in uses, run.site(f))
+    join = set()
+    for n in walk_local(f.node):
+        mc = method_call(n) if isinstance(n, ast.Call) else None
+        if mc and mc[0] == "self.deeds":
+            join.add(mc[1])
+    facts["extend.deeds-join"] = (tuple(sorted(join)), run.site(f))
+    return facts
+
+
+EXPECT_EXTEND = {
+    "extend.raw-uses-of-argument": (),
+    "extend.enters-filtered": True,
+    "extend.appends-filtered-to-doers": True,
+    "extend.deeds-join": ("extend",),
+}
+
+
+def remove_facts(run, cls):
+    f = run.ix.method(cls, "remove")
+    param = f.params()[0][1]
+    dom = FilteredDomain(param, ast.In)
+    res = Interp(dom, run.lat).run(f.node)
+    run.paths += len(res)
+    facts = {}
+    facts["remove.raw-uses-of-argument"] = (tuple(sorted({fn for fn, arg, filt, node in dom.uses if not filt})), run.site(f))
+    loops = deque_loops(f)
+    facts["remove.rotation-loop"] = (tuple(sorted({str(loop_test_is_nonempty(l[0], l[2])) for l in loops})), run.site(f))
+    facts["remove.rotates-self-deeds"] = (tuple(sorted({_origin_of(f, l[2]) for l in loops})), run.site(f))
+    # membership test in the loop uses the filtered list; self.doers.remove for each filtered doer
+    member = set()
+    for loop, popstmt, deq, end, names in loops:
+        for n in ast.walk(loop):
+            if isinstance(n, ast.Compare) and len(n.ops) == 1 and isinstance(n.ops[0], ast.In) \
+                    and len(names) == 3 and dotted(n.left) == names[2]:
+                member.add(dotted(n.comparators[0]))
+    filt = {t.id for n in walk_local(f.node) if isinstance(n, ast.Assign) and _filter_comp(n.value, param, ast.In)
+            for t in n.targets if isinstance(t, ast.Name)}
+    facts["remove.membership-uses-filtered"] = (bool(member) and member <= filt, run.site(f))
+    rm = set()
+    for n in walk_local(f.node):
+        if isinstance(n, ast.For) and isinstance(n.iter, ast.Name) and n.iter.id in filt:
+            for c in ast.walk(n):
+                mc = method_call(c) if isinstance(c, ast.Call) else None
+                if mc and mc[0] == "self.doers" and mc[1] == "remove" and c.args and dotted(c.args[0]) == dotted(n.target):
+                    rm.add("remove-each")
+    facts["remove.updates-doers"] = (tuple(sorted(rm)), run.site(f))
+    return facts
+
+
+def _origin_of(f, name):
+    for n in walk_local(f.node):
+        if isinstance(n, ast.Assign) and any(isinstance(t, ast.Name) and t.id == name for t in n.targets):
+            return unparse(n.value)
+    return name
+
+
+EXPECT_REMOVE = {
+    "remove.raw-uses-of-argument": (),
+    "remove.rotation-loop": ("len-times",),
+    "remove.rotates-self-deeds": ("self.deeds",),
+    "remove.membership-uses-filtered": True,
+    "remove.updates-doers": ("remove-each",),
+}
+
+MUTATORS = {"append", "extend", "insert", "remove", "pop", "clear", "sort", "reverse", "__setitem__", "__delitem__", "__iadd__"}
+
+
+def doers_writers(run):
+    """All writers of `self.doers` / `self._doers` in Doist, DoDoer and their subclasses repo-wide: {(class, method)}"""
+    ix = run.ix
+    roots = [ix.cls(MOD, "Doist"), ix.cls(MOD, "DoDoer")]
+    out = {}
+    for c in ix.classes.values():
+        if not any(r in c.mro for r in roots):
+            continue
+        for name, f in list(c.methods.items()) + [(k + "@setter", v) for k, v in c.setters.items()]:
+            for n in walk_local(f.node):
+                hit = None
+                if isinstance(n, (ast.Assign, ast.AugAssign, ast.AnnAssign)):
+                    tg = n.targets if isinstance(n, ast.Assign) else [n.target]
+                    for t in tg:
+                        base = t.value if isinstance(t, ast.Subscript) else t
+                        if dotted(base) in ("self.doers", "self._doers"):
+                            hit = n
+                elif isinstance(n, ast.Delete):
+                    for t in n.targets:
+                        base = t.value if isinstance(t, ast.Subscript) else t
+                        if dotted(base) in ("self.doers", "self._doers"):
+                            hit = n
+                elif isinstance(n, ast.Call):
+                    mc = method_call(n)
+                    if mc and mc[0] in ("self.doers", "self._doers") and mc[1] in MUTATORS:
+                        hit = n
+                if hit is not None:
+                    out.setdefault((c.fq, name), []).append((f, hit))
+    return out
+
+
+# --------------------------------------------------- sibling fact bundles
+def scheduler_fact_bundle(run, cls):
+    """All scheduling facts of one scheduler class, keyed by class-independent names.
+    Correspondence table applied: TYME (self.tyme <-> tyme parameter) inside recur facts;
+    tymth injection `self.tymen()` <-> `self.tymth` normalised to 'own-tymth'."""
+    ix = run.ix
+    out = {}
+    rf, _ = recur_facts(run, cls)
+    out.update({k: v for k, v in rf.items()})
+    out.update(deque_end_facts(run, cls))
+    ef = enter_facts(run, cls)
+    v, site = ef["enter.tymth-injected"]
+    ef["enter.tymth-injected"] = (tuple("own-tymth" if x in ("self.tymen()", "self.tymth") else x for x in v), site)
+    out.update(ef)
+    out.update(extend_facts(run, cls))
+    out.update(remove_facts(run, cls))
+    for meth, what in (("recur", "recur"), ("remove", "remove")):
+        f = ix.method(cls, meth)
+        fs_ = conservation_facts(run, f, what)
+        out["conserve.%s" % what] = (tuple(sorted((x.name, x.ok) for x in fs_)), run.site(f))
+    f = ix.method(cls, "exit")
+    out["close-loop"] = (tuple(sorted((x.name, x.ok) for x in close_loop_facts(run, f))), run.site(f))
+    f = ix.method(cls, "enter")
+    out["enter-safety"] = (tuple(sorted((x.name, x.ok) for x in enter_safety_facts(run, f))), run.site(f))
+    hz, _ = rotation_hazard_facts(run, cls)
+    out["rotation-hazard"] = (tuple((x.name, x.ok) for x in hz), hz[0].site)
+    for meth in ("enter", "recur", "exit"):
+        f = ix.method(cls, meth)
+        cn = close_result_name(f)
+        kinds = sorted(("from:<close-result>" if (cn and k == "from:" + cn) else k, t.split(" = ")[0].replace("__func__.", "F."))
+                       for k, s, t in done_store_facts(run, f))
+        out["done-stores.%s" % meth] = (tuple(kinds), run.site(f))
+    return out
+
+
+# --------------------------------------------------------------- C07 facts
+def pacing_facts(run, f):
+    """Facts about the real-time pacing of Doist.do / ado."""
+    import re
+    facts = {}
+    rf = runloop_facts(run, f)
+    seqs, site = rf["run.pacing"]
+    bad = []
+    real_seen = False
+    for seq in seqs:
+        s = " ".join(seq)
+        if "real?T" in seq:
+            real_seen = True
+            if not re.fullmatch(r"recur real\?T( expired\?F sleep)* expired\?T pace:restart", s):
+                bad.append(s)
+        elif "real?F" in seq:
+            if not re.fullmatch(r"recur real\?F( sleep)?", s):
+                bad.append(s)
+        else:
+            if s != "recur":
+                bad.append(s)
+    facts["pace.paths-wellformed"] = (tuple(bad) == () and real_seen, site, "offending per-cycle sequences: %s" % (bad or "real-time branch not found"))
+    # the timer object of the wait loop, its sleep argument and its arming before the loop
+    timer = None
+    wait = None
+    for n in walk_local(f.node):
+        if isinstance(n, ast.While):
+            t, neg = n.test, False
+            while isinstance(t, ast.UnaryOp) and isinstance(t.op, ast.Not):
+                t, neg = t.operand, not neg
+            d = dotted(t)
+            if d and d.endswith(".expired") and neg:
+                timer, wait = d.rsplit(".", 1)[0], n
+    facts["pace.wait-loop"] = (timer is not None, run.site(f, wait) if wait is not None else run.site(f), "no `while not <timer>.expired` loop")
+    if timer is None:
+        return facts
+    clamp = False
+    txt = None
+    for n in ast.walk(wait):
+        if isinstance(n, ast.Call) and (dotted(n.func) or "").endswith("sleep") and n.args:
+            a = n.args[0]
+            if isinstance(a, ast.Name):     # through a local
+                for m in ast.walk(wait):
+                    if isinstance(m, ast.Assign) and isinstance(m.targets[0], ast.Name) and m.targets[0].id == a.id:
+                        a = m.value
+            txt = unparse(a)
+            if isinstance(a, ast.Call) and dotted(a.func) == "max" and len(a.args) == 2:
+                consts = [x for x in a.args if isinstance(x, ast.Constant) and isinstance(x.value, (int, float)) and x.value >= 0]
+                rem = [x for x in a.args if dotted(x) == timer + ".remaining"]
+                clamp = bool(consts) and bool(rem)
+    facts["pace.sleep-remaining-clamped"] = (clamp, run.site(f, wait), "sleep argument is `%s`, expected max(0, %s.remaining)" % (txt, timer))
+    # arming: before the outer loop, duration defined from self.tock in this call
+    armed = []
+    for n in walk_local(f.node):
+        if isinstance(n, ast.Call):
+            mc = method_call(n)
+            if mc and mc[0] == timer and mc[1] == "start":
+                d = kwarg_(n, "duration") or (n.args[0] if n.args else None)
+                armed.append(("start", unparse(d) if d is not None else None, n))
+        if isinstance(n, ast.Assign) and dotted(n.targets[0]) == timer and isinstance(n.value, ast.Call):
+            d = kwarg_(n.value, "duration") or (n.value.args[0] if n.value.args else None)
+            armed.append(("construct", unparse(d) if d is not None else None, n))
+    # the effective duration: last arming with a duration argument wins; start() without one keeps the old one
+    prov = None
+    for kind, d, node in sorted(armed, key=lambda x: x[2].lineno):
+        if d is not None:
+            prov = d
+    starts = [a for a in armed if a[0] == "start"]
+    facts["pace.timer-started-before-loop"] = (bool(starts), run.site(f, starts[0][2]) if starts else run.site(f), "the pacing timer is never (re)started in this run")
+    facts["pace.duration-from-current-tock"] = (prov == "self.tock", run.site(f, armed[0][2]) if armed else run.site(f),
+                                                "the pacing timer's duration is %s in this run, expected self.tock read when the run starts "
+                                                "(a tock changed after construction is ignored)" % ("taken from `%s`" % prov if prov else "whatever it was given at construction"))
+    return facts
+
+
+def kwarg_(call, name):
+    for k in call.keywords:
+        if k.arg == name:
+            return k.value
+    return None
